@@ -680,6 +680,14 @@ def compatible(vc, vs, skey):
         return False, "fallback SCSV below the server's best version"
     if vs.defaultCurve not in vs.eccCurves:
         return None, "server defaultCurve is not among its eccCurves"
+    if nv == (3, 0) and vs.defaultCurve not in vc.eccCurves and \
+            any(k.startswith(("ecdhe", "ecdh_")) and k in vs.keyExchangeNames
+                for k in vc.keyExchangeNames):
+        # an SSLv3 hello cannot say which curves the client accepts: a
+        # server that picks an ECDHE suite uses its default curve, and a
+        # client restricted to other curves refuses it although an RSA or
+        # DHE suite would have worked - a configuration question
+        return None, "SSLv3 client restricted to curves it cannot announce"
     if nv is not None and nv < max(common) and \
             any((3, 4) in x.versions for x in (vc, vs)):
         # a server preferring an older version than the best common one
